@@ -13,9 +13,19 @@ def subparsers(prog, builder="cli.build_parser"):
     """{subcommand: {"positionals": [dest...], "optionals": [...], "func": qualname|None, "site": Site}}
     read from the function that builds the argparse parser: x = <sp>.add_parser("name"),
     x.add_argument("dest"...), x.set_defaults(func=H)"""
-    fi = prog.func(builder)
-    by_var = {}
+    from .callgraph import CallGraph
+
+    root = prog.func(builder)
+    cg = CallGraph(prog)
+    scope = [prog.funcs[q] for q in sorted(cg.cone([builder])) if prog.funcs[q].mod.short == root.mod.short]
     out = {}
+    for fi in scope:
+        _scan_parser_function(prog, fi, out)
+    return out
+
+
+def _scan_parser_function(prog, fi, out):
+    by_var = {}
     for n in ast.walk(fi.node):
         if isinstance(n, ast.Assign) and len(n.targets) == 1 and isinstance(n.targets[0], ast.Name) and isinstance(n.value, ast.Call):
             f = n.value.func
@@ -25,8 +35,27 @@ def subparsers(prog, builder="cli.build_parser"):
                 out[name] = {"positionals": [], "optionals": [], "func": None, "site": prog.site(fi.mod, n, fi.qualname)}
     calls = [n for n in ast.walk(fi.node) if isinstance(n, ast.Call) and isinstance(n.func, ast.Attribute) and isinstance(n.func.value, ast.Name) and n.func.value.id in by_var]
     calls.sort(key=lambda c: (c.lineno, c.col_offset))
+    # a helper that receives the sub-parser and adds arguments to it: _add_x(p_sub) called with a known variable
+    helper_calls = [n for n in ast.walk(fi.node) if isinstance(n, ast.Call) and any(isinstance(a, ast.Name) and a.id in by_var for a in n.args)]
+    for hc in helper_calls:
+        chain = dotted_chain(hc.func)
+        if not chain:
+            continue
+        r, rest = prog.resolve_dotted(fi.mod, chain)
+        if r[0] == "func" and not rest:
+            hfi = prog.funcs[r[1]]
+            params = hfi.params()
+            for i, a in enumerate(hc.args):
+                if isinstance(a, ast.Name) and a.id in by_var and i < len(params):
+                    sub = out[by_var[a.id]]
+                    for c2 in sorted([m for m in ast.walk(hfi.node) if isinstance(m, ast.Call) and isinstance(m.func, ast.Attribute) and isinstance(m.func.value, ast.Name) and m.func.value.id == params[i]], key=lambda c: (c.lineno, c.col_offset)):
+                        _apply_parser_call(prog, hfi, c2, sub)
     for c in calls:
-        sub = out[by_var[c.func.value.id]]
+        _apply_parser_call(prog, fi, c, out[by_var[c.func.value.id]])
+
+
+def _apply_parser_call(prog, fi, c, sub):
+    if True:
         if c.func.attr == "add_argument" and c.args and isinstance(c.args[0], ast.Constant) and isinstance(c.args[0].value, str):
             flag = c.args[0].value
             dest = None
@@ -45,7 +74,6 @@ def subparsers(prog, builder="cli.build_parser"):
                         r, rest = prog.resolve_dotted(fi.mod, chain)
                         if r[0] == "func" and not rest:
                             sub["func"] = r[1]
-    return out
 
 
 def exit_flows(prog, mod, stmts, entry_qualname):
